@@ -23,14 +23,41 @@ from pathlib import Path
 
 from src.core.base import BaseLintContext, BaseLintRule
 from src.core.constants import Language
+from src.core.linter_utils import load_linter_config
 from src.core.types import Violation
 
+from .config import LazyIgnoresConfig
 from .header_parser import SuppressionsParser
 from .matcher import IgnoreSuppressionMatcher
 from .python_analyzer import PythonIgnoreDetector
 from .skip_detector import TestSkipDetector
-from .types import IgnoreDirective
+from .types import IgnoreDirective, IgnoreType
 from .violation_builder import build_orphaned_violation, build_unjustified_violation
+
+
+# Which configuration switch governs which kind of suppression comment
+_SWITCH_OF_TYPE = {
+    IgnoreType.NOQA: "check_noqa",
+    IgnoreType.TYPE_IGNORE: "check_type_ignore",
+    IgnoreType.PYLINT_DISABLE: "check_pylint_disable",
+    IgnoreType.NOSEC: "check_nosec",
+    IgnoreType.PYRIGHT_IGNORE: "check_pyright_ignore",
+    IgnoreType.TS_IGNORE: "check_ts_ignore",
+    IgnoreType.TS_NOCHECK: "check_ts_ignore",
+    IgnoreType.TS_EXPECT_ERROR: "check_ts_ignore",
+    IgnoreType.ESLINT_DISABLE: "check_eslint_disable",
+    IgnoreType.THAILINT_IGNORE: "check_thailint_ignore",
+    IgnoreType.THAILINT_IGNORE_FILE: "check_thailint_ignore",
+    IgnoreType.THAILINT_IGNORE_NEXT: "check_thailint_ignore",
+    IgnoreType.THAILINT_IGNORE_BLOCK: "check_thailint_ignore",
+    IgnoreType.DRY_IGNORE_BLOCK: "check_thailint_ignore",
+}
+
+
+def _is_checked(ignore_type: IgnoreType, config: LazyIgnoresConfig) -> bool:
+    """Whether the configuration asks for this kind of suppression comment to be checked."""
+    switch = _SWITCH_OF_TYPE.get(ignore_type)
+    return True if switch is None else bool(getattr(config, switch))
 
 
 class LazyIgnoresRule(BaseLintRule):
@@ -82,28 +109,37 @@ class LazyIgnoresRule(BaseLintRule):
         if not context.file_content:
             return []
 
-        file_path = str(context.file_path) if context.file_path else "unknown"
-        return self.check_content(context.file_content, file_path)
+        config = load_linter_config(context, "lazy-ignores", LazyIgnoresConfig)
+        if not config.enabled:
+            return []
 
-    def check_content(self, code: str, file_path: str) -> list[Violation]:
+        file_path = str(context.file_path) if context.file_path else "unknown"
+        return self.check_content(context.file_content, file_path, config)
+
+    def check_content(
+        self, code: str, file_path: str, config: LazyIgnoresConfig | None = None
+    ) -> list[Violation]:
         """Check code for unjustified ignores and orphaned suppressions.
 
         Args:
             code: Source code content to analyze.
             file_path: Path to the file being analyzed.
+            config: Which kinds of suppression to check (default: all of them).
 
         Returns:
             List of violations for unjustified and orphaned suppressions.
         """
+        config = config or LazyIgnoresConfig()
         # Extract and parse header suppressions
         header = self._suppression_parser.extract_header(code, "python")
         suppressions = self._suppression_parser.parse(header)
 
         # Find all ignore directives in code
         ignores = self._python_detector.find_ignores(code, Path(file_path))
+        ignores = [i for i in ignores if _is_checked(i.ignore_type, config)]
 
         # Find test skip directives if enabled
-        if self._check_test_skips:
+        if self._check_test_skips and config.check_test_skips:
             test_skips = self._test_skip_detector.find_skips(code, Path(file_path), "python")
             ignores = list(ignores) + list(test_skips)
 
@@ -113,7 +149,8 @@ class LazyIgnoresRule(BaseLintRule):
         # Find violations
         violations: list[Violation] = []
         violations.extend(self._find_unjustified(ignores, suppressions, file_path))
-        violations.extend(self._find_orphaned(suppressions, used_rule_ids, file_path))
+        if config.check_orphaned:
+            violations.extend(self._find_orphaned(suppressions, used_rule_ids, file_path))
 
         return violations
 
